@@ -989,6 +989,8 @@ type RunResult struct {
 	BubblePanic string         `json:"bubble_panic,omitempty"`
 	Summary     string         `json:"summary,omitempty"`
 	Replays     []string       `json:"replays,omitempty"`
+	MultiTx     []int          `json:"multi_tx,omitempty"`
+	OpKinds     []string       `json:"op_kinds,omitempty"`
 }
 
 func tmpRoot() string {
